@@ -81,7 +81,7 @@ Definition mcmp (op : cmpop) (a b : mag) : bool :=
 (** * Configuration: the registry option and the two defect switches (DESIGN §2.6) *)
 Record qcfg := QCfg {
   c_autoconv : bool;   (* autoconvert_offset_to_baseunit *)
-  c_f14 : bool;        (* as coded: [_imul_div] calls [other.ito_root_units()] (converts the OTHER operand in place) *)
+  c_f14 : bool;        (* F14 (repaired by 243cd48): [_imul_div] called [other.ito_root_units()] (converted the OTHER operand in place) *)
   c_f80 : bool }.      (* as coded: [__ipow__] hands a zero-valued Quantity exponent on to [ndarray.__ipow__] *)
 Definition cfg_coded : qcfg := QCfg false true true.
 Definition cfg_repaired : qcfg := QCfg false false false.
